@@ -114,7 +114,7 @@ NextPass == /\ phase = "lex" /\ q[1] = 1 /\ q[2] > Len(tpl)
 Metadata == /\ phase = "lex" /\ q[1] = 2 /\ q[2] > Len(tpl)
             /\ sm' = (IF pl \in Keys(sm) THEN sm ELSE sm \cup {<<pl, MaxKey(sm)>>})
             /\ phase' = "done"
-            /\ UNCHANGED <<tpl, nlk, fpos, k, lineno, cb, report, route, pl, em, q>>
+            /\ UNCHANGED <<tpl, nlk, fpos, k, lineno, cb, report, route, opt, pl, em, q>>
 LMNext == Build \/ Prologue \/ Emit1 \/ NextPass \/ Metadata
 LMSpec == LMInit /\ [][LMNext]_lmvars
 
